@@ -25,7 +25,7 @@ RULE = (
     "while directory enumeration (os.scandir / os.listdir / os.walk) returns entries in a Hypothesis-drawn permutation, on the "
     "shipped and on generated keyword directories; (3) a rule-based state machine over histories: scan on a shared scanner, "
     "scan on a fresh scanner, rebuild the registry, scan through the CLI - every result must equal the result of a fresh interpreter "
-    "for the same (document, depth) and the first result in the history; documents come with letter-case variants; (4) 8 threads sharing one scanner (smoke test). Non-trivial = the document's tree contains a tie "
+    "for the same (document, depth) and the first result in the history; documents come with letter-case variants; (4) 8 threads sharing one scanner, each scanning generated documents plus long caret / parenthesis / concatenation / PowerShell texts built from its own word, with a 1 microsecond switch interval, against the sequential result (sampled schedules). Non-trivial = the document's tree contains a tie "
     "(two hits with equal span in one child list / parent-child pair); distinct by document hash."
 )
 ASSUMPTIONS = [
@@ -405,17 +405,33 @@ def run_histories(ctx, shard, nshards, seed, budget):
 
 
 # ---- (4) threads ------------------------------------------------------------------------------------------
+def _long_docs(words, n):
+    """documents that keep the pure-Python loops of the decoders busy for a while (caret stripping, parenthesis and brace
+    scans, byte arrays, concatenation), each built from its own word so that cross-talk between threads is visible"""
+    docs = []
+    for i, w in enumerate(words):
+        unit = b" ".join(b"^".join(bytes([c]) for c in w + b"%d" % j) for j in range(n))
+        docs.append(b"cmd /c " + unit + b"\x00")
+        docs.append(b"CreateObject(" + b"(" * 40 + b" ".join([w] * n) + b")" * 40 + b")")
+        docs.append(b" & ".join(b'"' + w + b"%d" % j + b'"' for j in range(n)))
+        docs.append(b"x = '" + b"p^owershell -nop -w hidden " + b" ".join([w] * n) + b"'")
+    return docs
+
+
 def check_threads(case) -> Outcome:
     from multidecoder.json_conversion import tree_to_json
     from multidecoder.multidecoder import Multidecoder
+    from multidecoder.registry import get_analyzers
 
     o = Outcome()
-    docs = case["docs"]
-    md = Multidecoder()
+    docs = list(case["docs"]) + _long_docs(case["words"], case["n"])
+    # analyzers only: without the 5000 keyword searches (C code) the threads spend their time inside the decoders' Python loops
+    md = Multidecoder(get_analyzers()) if case["analyzers_only"] else Multidecoder()
     seq = [tree_to_json(md.scan(d)) for d in docs]
     old = sys.getswitchinterval()
     sys.setswitchinterval(1e-6)
-    res = [None] * 8
+    nthreads = 8
+    res = [None] * nthreads
     errs = []
 
     def work(i):
@@ -425,14 +441,19 @@ def check_threads(case) -> Outcome:
             if i % 2:
                 order.reverse()
             m = {}
-            for j in order:
-                m[j] = tree_to_json(md.scan(docs[j]))
+            for _ in range(case["rounds"]):
+                for j in order:
+                    t = tree_to_json(md.scan(docs[j]))
+                    if j in m and m[j] != t:
+                        m[j] = None
+                    elif j not in m:
+                        m[j] = t
             res[i] = [m[j] for j in range(len(docs))]
         except Exception as e:  # pragma: no cover
             errs.append(repr(e))
 
     try:
-        ts = [threading.Thread(target=work, args=(i,)) for i in range(8)]
+        ts = [threading.Thread(target=work, args=(i,)) for i in range(nthreads)]
         [t.start() for t in ts]
         [t.join() for t in ts]
     finally:
@@ -441,15 +462,17 @@ def check_threads(case) -> Outcome:
         o.violate("threads:exception", {"errors": errs[:3]})
     for i, r in enumerate(res):
         if r is not None and r != seq:
-            o.violate("threads:tree-differs-from-sequential", {"thread": i})
+            bad = [j for j in range(len(docs)) if r[j] != seq[j]]
+            o.violate("threads:tree-differs-from-sequential", {"thread": i, "documents": [docs[j][:60] for j in bad[:3]]})
             break
-    o.nontrivial = any(has_tie(t) for t in seq)
-    o.label("threads")
+    o.nontrivial = True
+    o.label("threads:analyzers-only" if case["analyzers_only"] else "threads:default-registry")
     return o
 
 
 def thread_cases():
-    return st.fixed_dictionaries({"docs": st.lists(tie_docs(), min_size=4, max_size=12)})
+    words = st.lists(st.sampled_from([b"alpha", b"bravo", b"charlie", b"delta", b"echo", b"foxtrot"]), min_size=2, max_size=4, unique=True)
+    return st.fixed_dictionaries({"docs": st.lists(tie_docs(), min_size=2, max_size=6), "words": words, "n": st.sampled_from([40, 150, 400]), "rounds": st.sampled_from([1, 2]), "analyzers_only": st.sampled_from([True, True, False])})
 
 
 def units(tier):
